@@ -67,6 +67,8 @@ pub fn eval_concrete(sc: &Scenario) -> (Option<(String, String)>, Option<String>
     ref_db.yields = false;
     let r = run_reference(&m, &ref_db, &txs, parallel, false);
     let ref_fired = ref_db.fired_count() > 0;
+    // how often in-order execution queries the faulted key at all
+    let ref_reads = ref_db.query_count(&key);
     let out = run_grevm(&m, m.db.clone(), &txs, &sc.grevm, sc.schedule.as_ref(), None, false);
     match &out.verdict {
         Verdict::Inconclusive { detail } => return (None, Some(detail.clone()), false, "inconclusive"),
@@ -120,7 +122,11 @@ pub fn eval_concrete(sc: &Scenario) -> (Option<(String, String)>, Option<String>
             Err((k, sig)) => {
                 if *sig != injected_sig(&key) {
                     Err(format!("transient fault: unexpected error Err({k}, {sig})"))
-                } else if !ref_fired {
+                } else if !ref_fired && ref_reads == 0 {
+                    // (a fault on the n-th query, n >= 1, of a key that in-order execution does query
+                    // may hit an in-order-valid attempt, because concurrent cache misses and the
+                    // commit thread query the database more often than in-order execution does;
+                    // reporting it with an exact prefix is what the property allows - checked below)
                     Err(format!("transient fault on a key in-order execution never reads was reported as Err({k}, {sig}) (only a stale speculative attempt can have read it)"))
                 } else {
                     let k = *k;
